@@ -35,9 +35,12 @@ BAD = {
     'unknown_cookie': b'# coding: no-such-codec\nx = 1\n',
     'bad_indent': b'def f():\n\tx = 1\n        y = 2\n',
     'nul': b'x = 1\x00\n',
+    # too deeply nested for the parser / for the minifier's recursive visitors (RecursionError, not SyntaxError)
+    'too_deep_parse': b'x = ' + b' + '.join([b'1'] * 4000) + b'\n',
+    'too_deep_minify': b'x = ' + b' + '.join([b'name'] * 2500) + b'\n',
 }
 NAMES_PY = ['mod.py', 'a.py', 'b.py', 'script.pyw', 'pkg_init.py', 'zz.py', 'CamelCase.py', 'with space.py', 'x.y.py', '.hidden.py', 'mé.py']
-NAMES_OTHER = ['notes.txt', 'data.pyi', 'cache.pyc', 'UPPER.PY', 'backup.py.bak', 'Makefile', 'nopy', 'py', 'endswithpy', 'x.pyw.orig', 'README', 'spam.Py', 'hpy']
+NAMES_OTHER = ['jobs.ipy', 'numpy', 'settings_copy', 'array.npy', 'run.xpyw', 'mod.py~', 'mod.py ', 'notes.txt', 'data.pyi', 'cache.pyc', 'UPPER.PY', 'backup.py.bak', 'Makefile', 'nopy', 'py', 'endswithpy', 'x.pyw.orig', 'README', 'spam.Py', 'hpy']
 
 
 def gen_tree(r, fault_kind=None):
